@@ -829,6 +829,58 @@ std::string loc_flag(const symbol_t& s)
 }
 }  // namespace
 
+namespace {
+/** the statement skeleton of a function body: e expression, r return, a assert, - empty, b break, c continue,
+ *  {..} block, i(then) / i(then|else), w(..) while, d(..) do, f(..) for, q(..) iteration, s(..) switch, k(..) case, o(..) default */
+struct ShapeVisitor : StatementVisitor
+{
+    std::string s;
+    int depth{0};
+    void sub(Statement* st)
+    {
+        if (!st) {
+            s += "0";
+            return;
+        }
+        if (++depth > 100)
+            s += "^";
+        else
+            st->accept(this);
+        --depth;
+    }
+    void children(BlockStatement* b)
+    {
+        for (auto& c : *b)
+            sub(c.get());
+    }
+    int32_t visitEmptyStatement(EmptyStatement*) override { s += "-"; return 0; }
+    int32_t visitExprStatement(ExprStatement*) override { s += "e"; return 0; }
+    int32_t visitAssertStatement(AssertStatement*) override { s += "a"; return 0; }
+    int32_t visitForStatement(ForStatement* st) override { s += "f("; sub(st->stat.get()); s += ")"; return 0; }
+    int32_t visitIterationStatement(IterationStatement* st) override { s += "q("; sub(st->stat.get()); s += ")"; return 0; }
+    int32_t visitWhileStatement(WhileStatement* st) override { s += "w("; sub(st->stat.get()); s += ")"; return 0; }
+    int32_t visitDoWhileStatement(DoWhileStatement* st) override { s += "d("; sub(st->stat.get()); s += ")"; return 0; }
+    int32_t visitBlockStatement(BlockStatement* st) override { s += "{"; children(st); s += "}"; return 0; }
+    int32_t visitSwitchStatement(SwitchStatement* st) override { s += "s("; children(st); s += ")"; return 0; }
+    int32_t visitCaseStatement(CaseStatement* st) override { s += "k("; children(st); s += ")"; return 0; }
+    int32_t visitDefaultStatement(DefaultStatement* st) override { s += "o("; children(st); s += ")"; return 0; }
+    int32_t visitIfStatement(IfStatement* st) override
+    {
+        s += "i(";
+        sub(st->trueCase.get());
+        if (st->falseCase) {
+            s += "|";
+            sub(st->falseCase.get());
+        }
+        s += ")";
+        return 0;
+    }
+    int32_t visitBreakStatement(BreakStatement*) override { s += "b"; return 0; }
+    int32_t visitContinueStatement(ContinueStatement*) override { s += "c"; return 0; }
+    int32_t visitReturnStatement(ReturnStatement*) override { s += "r"; return 0; }
+};
+}  // namespace
+
 std::string summarize_document(Document& doc)
 {
     TraversalScope traversal_scope;
@@ -882,7 +934,10 @@ std::string summarize_document(Document& doc)
                         ++i;
                 }
             }
-            os << "  fun " << f.uid.get_name() << " " << tagstr(ft) << "\n";
+            ShapeVisitor shape;
+            if (f.body)
+                shape.sub(f.body.get());
+            os << "  fun " << f.uid.get_name() << " " << tagstr(ft) << " shape=" << shape.s << "\n";
         }
         if (!(d.frame == frame_t{}))
             for (uint32_t i = 0; i < d.frame.get_size(); ++i) {
